@@ -51,6 +51,23 @@ Theorem C31_expansion_equiv : forall K sg,
 Proof. exact expansion_equiv. Qed.
 Print Assumptions C31_expansion_equiv.
 
+(* The whole program with EVERY macro boundary expanded by hand (innermost first, each with its own
+   fresh renaming x + n where n bounds all names used so far) has the same verdict, output and final
+   environment as the macro program - this is the program the correspondence stream runs on elk. *)
+Theorem C31_expand_all_equiv : forall s K u m r,
+  stmt_below K s = true -> env_below K r = true ->
+  run m r u (fst (expand_all K u s)) = run m r u s.
+Proof. intros s K u m r Hs Hr. exact (proj2 (proj2 (expand_all_equiv s K u Hs)) m r Hr). Qed.
+Print Assumptions C31_expand_all_equiv.
+
+(* The checker pass is sound for execution: when every name of every branch resolves (run Static
+   succeeds: the program is accepted), execution never meets an unresolved name, from the same
+   environment and flag. *)
+Theorem C31_accepted_programs_resolve : forall s r u,
+  run Static r u s <> None -> run Dynamic r u s <> None.
+Proof. exact checked_programs_run. Qed.
+Print Assumptions C31_accepted_programs_resolve.
+
 (* ---- non-vacuity: the model computes what the real binary printed for the same programs ---- *)
 
 (* caller: x := 1; macro body: x := 10; println x; x = x + 1; println x; after: println x  ->  10 11 1 *)
@@ -90,3 +107,11 @@ Example C31_expand_nonvacuous :
     (SBoundary (SSeq (SLet 0%N (EAdd (EUnhyg (EVar 0%N)) (ELit 1))) (SPrint (EUnhyg (EVar 0%N)))))
   = Some ([mkFrame FDefault [(0%N, 1)]], [2]).
 Proof. vm_compute. auto. Qed.
+
+(* expand_all leaves no boundary and renames nested expansions apart *)
+Example C31_expand_all_nonvacuous :
+  fst (expand_all 100%N false
+        (SSeq (SLet 0%N (ELit 1)) (SBoundary (SSeq (SLet 0%N (EUnhyg (EVar 0%N))) (SBoundary (SPrint (EUnhyg (EVar 0%N))))))))
+  = SSeq (SLet 0%N (ELit 1))
+         (SBlock (SSeq (SLet 200%N (EUnhyg (EVar 0%N))) (SBlock (SPrint (EUnhyg (EVar 200%N)))))).
+Proof. vm_compute. reflexivity. Qed.
